@@ -243,6 +243,7 @@ type row struct {
 	ExpCPU   float64 `json:"exp_cpu_last_doubling,omitempty"`
 	Verdict  string  `json:"verdict"`
 	Where    string  `json:"where,omitempty"`
+	CaseSec  float64 `json:"case_cpu_s"`
 }
 
 func round2(x float64) float64 { return math.Round(x*100) / 100 }
@@ -373,6 +374,8 @@ func runCase(c *common.Ctx, e *common.Enum, f *family, en *entry) {
 		return
 	}
 	ladder := f.ladder(e.Thorough())
+	var ru0 syscall.Rusage
+	syscall.Getrusage(0, &ru0)
 	c.Input(fmt.Sprintf("family %s (%s), entry point %s (%s), n = 8, 10 .. 64, then %v; input at n = 8: %s",
 		f.name, f.doc, en.name, en.doc, ladder, common.Trim(f.gen(8), 200)))
 	c.Sample(map[string]any{"family": f.name, "entry": en.name, "input_at_n=8": common.Trim(f.gen(8), 120)})
@@ -412,6 +415,9 @@ stages:
 			if len(sql) > maxInputSize {
 				break
 			}
+			if !e.Thorough() && en.quickBytes > 0 && len(sql) > en.quickBytes && len(cur) >= 3 {
+				break
+			}
 			var call func() string
 			ok := true
 			if en.needAST {
@@ -429,16 +435,19 @@ stages:
 				prep = append(prep, pp)
 				ok = pp.Result == "ok" && tr != nil
 				call = func() string { return en.tree(tr) }
-				if sig, _, _ := judge(en, st.ru, prep, nil); sig != "" {
-					// reported by the Parse case of this family; larger trees would cost ever more to build
+				if len(judge(en, st.ru, prep, nil)) > 0 {
+					// reported by the Parse case of this family; larger trees would cost ever more to build.
+					// This size is still measured (the tree exists), then the ladder ends.
 					cut = fmt.Sprintf("ladder cut at n=%d: building the tree for this family is itself super-linear (reported by the Parse case)", n)
-					break stages
 				}
 			} else {
 				call, ok = en.prepare(sql)
 			}
 			if !ok {
 				// a tree-consuming entry point and the parser rejects this input: nothing to measure
+				if cut != "" {
+					break stages
+				}
 				rejected++
 				if st.main {
 					pts = append(pts, point{N: n, Bytes: len(sql), Result: "not-parsed"})
@@ -456,7 +465,7 @@ stages:
 			p.N, p.Bytes = n, len(sql)
 			c.Count("measurements", 1)
 			// CPU back-stop data: min of 3 where a call is long enough to be timed
-			if st.main && p.cpu >= cpuFloor/4 {
+			if st.main && p.cpu >= cpuFloor*3/4 {
 				c0 := calibTime()
 				m := p.cpu
 				for k := 0; k < 2; k++ {
@@ -476,13 +485,15 @@ stages:
 			if os.Getenv("C20_DEBUG") != "" {
 				fmt.Fprintf(os.Stderr, "%s n=%d bytes=%d res=%s lib=%d std=%d alloc=%d cpu=%v wall=%v\n", c.Key, n, len(sql), p.Result, p.Lib, p.Std, p.Alloc, p.cpu, p.wall)
 			}
-			if sig, where, msg := judge(en, st.ru, cur, call); sig != "" {
-				r.Verdict, r.Where = "super-linear", where
+			if fs := judge(en, st.ru, cur, call); len(fs) > 0 {
+				r.Verdict, r.Where = "super-linear", fs[0].where
 				if !st.main {
 					r.Verdict = "explosive growth at small sizes"
 					pts = cur
 				}
-				c.Fail(sig, fmt.Sprintf("family %s, entry point %s: %s", f.name, en.name, msg))
+				for _, x := range fs {
+					c.Fail(x.sig, fmt.Sprintf("family %s, entry point %s: %s", f.name, en.name, x.msg))
+				}
 				violated = true
 				break stages
 			}
@@ -493,6 +504,9 @@ stages:
 					violated = true
 					break stages
 				}
+			}
+			if cut != "" {
+				break stages
 			}
 			if p.wall > 20*time.Second {
 				e.Cap(fmt.Sprintf("ladder of %s stopped at n=%d: one call took more than 20 s", c.Key, n))
@@ -552,6 +566,9 @@ stages:
 		c.NonTrivial()
 	}
 	c.Outcome(en.name + ":" + class)
+	var ru1 syscall.Rusage
+	syscall.Getrusage(0, &ru1)
+	r.CaseSec = round2(float64(ru1.Utime.Sec-ru0.Utime.Sec) + float64(ru1.Utime.Usec-ru0.Utime.Usec)/1e6)
 	if !e.Replaying() {
 		b, _ := json.Marshal(r)
 		os.WriteFile(filepath.Join(resultsDir(), fmt.Sprintf("%016x.json", common.Hash64(c.Key))), b, 0o644)
@@ -561,7 +578,9 @@ stages:
 // judge applies a growth rule to the totals, to every basic block and to the allocated bytes of
 // the measured points (the newest window); it returns a signature naming the function responsible.
 // call == nil: only say whether the rule is violated (no re-runs for localisation).
-func judge(en *entry, ru rule, pts []point, call func() string) (sig, where, msg string) {
+type finding struct{ sig, where, msg string }
+
+func judge(en *entry, ru rule, pts []point, call func() string) (out []finding) {
 	var ps []point
 	for _, p := range pts {
 		if p.Result != "not-parsed" {
@@ -609,7 +628,7 @@ func judge(en *entry, ru rule, pts []point, call func() string) (sig, where, msg
 		return
 	}
 	if call == nil {
-		return "superlinear", "", ""
+		return []finding{{"superlinear", "", ""}}
 	}
 	// prefer blocks of the library over blocks of the standard library, then the hottest
 	sort.Slice(bad, func(a, b int) bool {
@@ -633,10 +652,14 @@ func judge(en *entry, ru rule, pts []point, call func() string) (sig, where, msg
 		}
 		return fmt.Sprintf("%s %s at n = %s: %s over %s", name, strings.Join(xs, " -> "), strings.Join(nn, ", "), strings.Join(fs, ", "), ru.name)
 	}
+	allocFn := ""
+	if allBad {
+		allocFn = allocSite(call)
+	}
 	if len(bad) > 0 {
 		u := bad[0].u
 		fn := declFunc(u)
-		msg = describe("execution count of basic block "+unitPos(u)+" in "+fn, blk(u))
+		msg := describe("execution count of basic block "+unitPos(u)+" in "+fn, blk(u))
 		if !meta.funcs[meta.units[u].fn].lib {
 			// the steep block is in the standard library: name the library function that calls into it
 			if caller := sampleCaller(call); caller != "" {
@@ -657,17 +680,23 @@ func judge(en *entry, ru rule, pts []point, call func() string) (sig, where, msg
 			msg += "; further super-linear blocks in " + strings.Join(others, ", ")
 		}
 		msg += "; " + describe("total block count", tot) + "; " + describe("allocated bytes", all)
-		return "superlinear:" + en.name + ":" + fn, fn, msg
+		out = append(out, finding{"superlinear:" + en.name + ":" + fn, fn, msg})
+		if allBad && allocFn != "" && allocFn != fn && !seen[allocFn] {
+			// a second, independent culprit: the allocation that grows is made elsewhere
+			out = append(out, finding{"superlinear:" + en.name + ":" + allocFn, allocFn,
+				describe("allocated bytes", all) + "; the allocation site that grows is in " + allocFn})
+		}
+		return out
 	}
 	if allBad {
-		fn := allocSite(call)
-		msg = describe("allocated bytes", all)
+		fn := allocFn
+		msg := describe("allocated bytes", all)
 		if fn == "" {
 			fn = "allocation-not-localised"
 		} else {
 			msg += "; the allocation site that grows is in " + fn
 		}
-		return "superlinear:" + en.name + ":" + fn, fn, msg
+		return []finding{{"superlinear:" + en.name + ":" + fn, fn, msg}}
 	}
 	// only the total is steep: name the hottest block that is steep regardless of the floor
 	best, bestCnt := -1, uint32(0)
@@ -680,7 +709,7 @@ func judge(en *entry, ru rule, pts []point, call func() string) (sig, where, msg
 	if best >= 0 {
 		fn = declFunc(best)
 	}
-	return "superlinear:" + en.name + ":" + fn, fn, describe("total block count", tot)
+	return []finding{{"superlinear:" + en.name + ":" + fn, fn, describe("total block count", tot)}}
 }
 
 // judgeCPU is the user-CPU-time back-stop.
@@ -740,6 +769,29 @@ func libFrame(fn string) string {
 	return litSuffix.ReplaceAllString(s, "")
 }
 
+var pcNames = map[uintptr]string{}
+
+// pcLibFrame names the innermost library function (inlined frames included) at a return address.
+func pcLibFrame(pc uintptr) string {
+	if s, ok := pcNames[pc]; ok {
+		return s
+	}
+	name := ""
+	frames := runtime.CallersFrames([]uintptr{pc})
+	for {
+		fr, more := frames.Next()
+		if g := libFrame(fr.Function); g != "" {
+			name = g
+			break
+		}
+		if !more {
+			break
+		}
+	}
+	pcNames[pc] = name
+	return name
+}
+
 // allocSite re-runs the call with every allocation profiled and names the library function whose
 // allocations account for most bytes (for a quadratic allocation pattern that is the culprit).
 func allocSite(call func() string) string {
@@ -758,14 +810,9 @@ func allocSite(call func() string) string {
 		out := map[string]int64{}
 		for _, r := range recs[:n] {
 			name := ""
-			frames := runtime.CallersFrames(r.Stack())
-			for {
-				fr, more := frames.Next()
-				if g := libFrame(fr.Function); g != "" {
+			for _, pc := range r.Stack() {
+				if g := pcLibFrame(pc); g != "" {
 					name = g
-					break
-				}
-				if !more {
 					break
 				}
 			}
